@@ -22,6 +22,7 @@ def _decay():
 def _single(draw):
     accum = draw(st.sampled_from([1, 1, 2, 3]))
     n_ops = draw(st.integers(1, 8))
+    bystander = draw(st.sampled_from([False, False, False, True]))
     ops = []
     for _ in range(n_ops):
         if draw(st.integers(0, 4)) == 0:
@@ -30,9 +31,11 @@ def _single(draw):
             op = {'op': 'train', 'seed': draw(st.integers(0, 9999))}
             if accum > 1:
                 op['sizes'] = draw(st.lists(st.integers(1, 5), min_size=accum, max_size=accum))
+            if bystander:
+                op['by'] = sorted(draw(st.sets(st.integers(0, accum - 1), max_size=accum)))
             ops.append(op)
     pd = draw(st.sampled_from(['float32', 'float32', 'float64']))
-    return {'kind': 'single', 'spec': draw(gens.model_spec(max_layers=3, max_dim=7, max_out=6)),
+    return {'kind': 'single', 'bystander': bystander, 'spec': draw(gens.model_spec(max_layers=3, max_dim=7, max_out=6)),
             'method': 'eigen', 'prediv': False, 'in_hook': draw(st.booleans()), 'accum': accum, 'N': draw(st.integers(1, 5)),
             'style': draw(gens.style_strategy()), 'param_dtype': pd,
             'factor_dtype': draw(st.sampled_from([None, None, 'float32', 'float64', 'bfloat16'])),
@@ -99,7 +102,7 @@ class C04(Prop):
 
     def _labels(self, case):
         return {'kind': case['kind'], 'in_hook': case['in_hook'], 'accum': case['accum'], 'factor_dtype': str(case['factor_dtype']),
-                'loss_scale': case['loss_scale'] is not None, 'dynamic_loss_scale': isinstance(case['loss_scale'], dict), 'has_conv': any(L['t'] == 'conv' for L in case['spec']['layers']),
+                'loss_scale': case['loss_scale'] is not None, 'dynamic_loss_scale': isinstance(case['loss_scale'], dict), 'bystander': bool(case.get('bystander')), 'has_conv': any(L['t'] == 'conv' for L in case['spec']['layers']),
                 'decay_kind': 'const' if not isinstance(case['hp']['factor_decay'], dict) else list(case['hp']['factor_decay'])[0]}
 
     def _single(self, case):
@@ -108,7 +111,7 @@ class C04(Prop):
         labels = self._labels(case)
         for i, op in enumerate(case['program']):
             if op['op'] == 'train':
-                bad = ls.train_iter(op['seed'], op.get('sizes'))
+                bad = ls.train_iter(op['seed'], op.get('sizes'), by=op.get('by', ()))
             else:
                 bad = ls.eval_pass(op['seed'])
             # this property owns the factor clauses only; gradients are C01/C05's subject
